@@ -49,6 +49,7 @@ TOYS = ('complete', 'incomplete', 'rolemix', 'stale')
 NRUN = {'quick': 4, 'thorough': 96}
 RUN_PARALLEL = {'quick': 4, 'thorough': 12}
 BIG = 300          # option products above this are thinned in quick
+MANY = 32          # quick: more assignments than this -> dims rotate
 
 
 # -- design -------------------------------------------------------------------
@@ -144,11 +145,17 @@ def enumerate_cases(listing, tier, seed):
     for s in listing['schemes']:
         combos = option_combos(s, tier, rng)
         solid_vals = [False, True] if s['solids'] else [False]
-        k = 0
+        k = j = 0
         for ci, o in enumerate(combos):
             for integ in s['integrators']:
                 for solids in solid_vals:
-                    for dim in s['dims']:
+                    dims = s['dims']
+                    if tier == 'quick' and len(combos) > MANY:
+                        # quick, many option assignments: one dimension per
+                        # (assignment, solids), rotating with the seed
+                        j += 1
+                        dims = [dims[(j + seed) % len(dims)]]
+                    for dim in dims:
                         if tier == 'thorough':
                             cleans = [True, False]
                         else:
@@ -572,13 +579,14 @@ def check(chk):
              'configure / configure_solver / setup_properties / '
              'get_equations / get_solver and the real code generator; '
              'quick: every option assignment (enumerations of more than 3 '
-             'values cycled when the product exceeds %d) x solids x dim, '
-             'clean alternating with the seed; thorough: the complete '
-             'product.  Counted distinct by the hash of the extracted '
+             'values cycled when the product exceeds %d) x solids x dim '
+             '(one seed-rotated dim per assignment for schemes with more '
+             'than %d assignments), clean alternating with the seed; '
+             'thorough: the complete product.  Counted distinct by the hash of the extracted '
              'abstraction (array name sets, equations with names and '
              'symbols, steppers); non-trivial when set-up succeeded, there '
              'is at least one equation and at least one name is required '
-             'only through a precomputed symbol' % BIG,
+             'only through a precomputed symbol' % (BIG, MANY),
         exhaustive=(chk.tier == 'thorough' and not chk.args.replay),
         samples=samples,
     ))
